@@ -628,6 +628,13 @@ counted:
 	if rp.NStderr > 0 {
 		c.Count("replies_with_interleaved_stderr", 1)
 	}
+	if rp.ThinkMs > 0 {
+		c.Count("replies_later_than_send_timeout", 1)
+	}
+	if rp.Burst > 0 {
+		c.Count("replies_with_stderr_record_burst", 1)
+		c.Max("max_consecutive_stderr_records", int64(rp.Burst))
+	}
 	if rp.NStdout > 1 {
 		c.Count("replies_with_split_stdout", 1)
 	}
